@@ -11,6 +11,11 @@ from typing import Callable
 import cloudpickle
 import numpy as np
 from scipy import interpolate
+
+try:  # moved to a private module (the public alias lost it in SciPy 1.15)
+    from scipy.interpolate._interpnd import estimate_gradients_2d_global
+except ImportError:  # older SciPy
+    from scipy.interpolate.interpnd import estimate_gradients_2d_global
 from scipy.interpolate import LinearNDInterpolator
 
 from adaptive.learner.base_learner import BaseLearner
@@ -49,9 +54,7 @@ def deviations(ip: LinearNDInterpolator) -> list[np.ndarray]:
         The deviation per triangle.
     """
     values = ip.values / (np.ptp(ip.values, axis=0).max() or 1)
-    gradients = interpolate.interpnd.estimate_gradients_2d_global(
-        ip.tri, values, tol=1e-6
-    )
+    gradients = estimate_gradients_2d_global(ip.tri, values, tol=1e-6)
 
     simplices = ip.tri.simplices
     p = ip.tri.points[simplices]
